@@ -779,6 +779,19 @@ func helperReturnOrigin(w *World, fi *FuncInfo, c *ast.CallExpr) (*types.Var, st
 			}
 		}
 	}
+	// slices.AppendSeq(make(…), maps.Keys(x.f)): the same into a pre-sized slice
+	if isFunc(callee(info, c), "slices", "", "AppendSeq") && len(c.Args) == 2 {
+		if inner, ok := unparen(c.Args[1]).(*ast.CallExpr); ok && isFunc(callee(info, inner), "maps", "", "Keys") && len(inner.Args) == 1 {
+			if fv := fieldOf(info, inner.Args[0]); fv != nil {
+				if mk, isMk := unparen(c.Args[0]).(*ast.CallExpr); isMk && exprStr(mk.Fun) == "make" {
+					return fv, "collect"
+				}
+				if isNilIdent(info, c.Args[0]) {
+					return fv, "collect"
+				}
+			}
+		}
+	}
 	cal := callee(info, c)
 	if cal == nil || cal.Exported() {
 		return nil, ""
